@@ -12,6 +12,7 @@ import (
 	"massnet.org/mass-wallet/config"
 	"massnet.org/mass-wallet/masswallet"
 	"massnet.org/mass-wallet/masswallet/txmgr"
+	"verifharness/internal/sim"
 )
 
 // C17Emit writes one line of the history.
@@ -128,3 +129,14 @@ func bytesLess(a, b []byte) bool {
 	}
 	return false
 }
+
+// C17Block builds (does not attach) a block on the node's tip with exactly the given coinbase
+// outputs and transactions and defines it for the model (B/T/I/O lines).
+func (h *H) C17Block(cb []sim.Out, txs []*wire.MsgTx) *massutil.Block {
+	b := h.N.MakeBlock(h.N.Tip(), cb, txs)
+	h.defineBlock(b)
+	return b
+}
+
+// C17TxNum is the history's number of a transaction (0 if unknown).
+func (h *H) C17TxNum(th wire.Hash) int { return h.TxID[th] }
